@@ -3,9 +3,11 @@ package main
 import (
 	"crypto"
 	stded "crypto/ed25519"
+	"crypto/sha512"
 	"fmt"
 	"io"
 	"math/big"
+	"runtime"
 
 	"github.com/oasisprotocol/ed25519"
 	"github.com/oasisprotocol/ed25519/extra/x25519"
@@ -250,6 +252,32 @@ func buildEntries(opSeed uint64, o Opt, es []Entry) []triple {
 			}
 			R := bcAdd(bcScalarMult(s, bcB), bcTorsion[(e.Q>>1)%8])
 			t.sig = append(bcEncode(R), intToLE32(s)...)
+		case "tor0":
+			// small-order key, small-order R, S = 0: valid under ZIP-215 only
+			t.key = append([]byte{}, smallOrderEnc[e.P%14]...)
+			t.sig = append(append([]byte{}, smallOrderEnc[e.Q%14]...), make([]byte, 32)...)
+		case "smRv":
+			// honest key, small-order R, S = h*a: [8]([S]B - [h]A - R) = -[8]R = 0,
+			// valid under ZIP-215, rejected by default (small-order R)
+			R := smallOrderEnc[e.P%14]
+			a, _ := bcSecret(seed)
+			hh := sha512.New()
+			hh.Write(dom2(o.Hash, signCtxFor(o, signCtx)))
+			hh.Write(R)
+			hh.Write(pub)
+			hh.Write(t.msg)
+			k := new(big.Int).Mod(leToInt(hh.Sum(nil)), bcL)
+			s := new(big.Int).Mod(new(big.Int).Mul(k, a), bcL)
+			t.sig = append(append([]byte{}, R...), intToLE32(s)...)
+		case "phLen":
+			// a signature that is a correct Ed25519ph signature over a
+			// "pre-hash" of the wrong length: only the length rule rejects it
+			n := e.P % 130
+			if n == 64 {
+				n = 65
+			}
+			t.msg = seededBytes(n, opSeed, lbl("msg"), uint64(i))
+			t.sig = bcSignAs(seed, pub, t.msg, dom2(1, signCtxFor(o, signCtx)))
 		case "mix":
 			// mixed-order key A+T signed with the patched public half
 			ti := 1 + e.P%7
@@ -303,11 +331,22 @@ var loworderX25519 = [][]byte{
 	{0xec, 0xff, 0xff, 0xff, 0xff, 0xff, 0xff, 0xff, 0xff, 0xff, 0xff, 0xff, 0xff, 0xff, 0xff, 0xff, 0xff, 0xff, 0xff, 0xff, 0xff, 0xff, 0xff, 0xff, 0xff, 0xff, 0xff, 0xff, 0xff, 0xff, 0xff, 0x7f},
 }
 
+// reuseOptions (io engine only; a single goroutine): most calls go through one
+// long-lived Options value whose exported fields are rewritten before each call.
+var reuseOptions bool
+var sharedOptions = &ed25519.Options{}
+
 func prepare(op *Op) *Prepared {
 	p := &Prepared{Op: op}
 	g := &p.G
 	o := op.Opt
 	p.opts = &ed25519.Options{Hash: o.hash(), Context: string(o.ctxBytes(op.Seed)), ZIP215Verify: o.Zip}
+	if reuseOptions && op.Seed&3 != 0 {
+		// A caller may keep one Options value and re-target its exported
+		// fields between (sequential) calls.
+		sharedOptions.Hash, sharedOptions.Context, sharedOptions.ZIP215Verify = p.opts.Hash, p.opts.Context, p.opts.ZIP215Verify
+		p.opts = sharedOptions
+	}
 	seed := signerSeed(op.Seed, 0)
 	stdPriv := stded.NewKeyFromSeed(seed)
 	switch op.Fn {
@@ -346,13 +385,12 @@ func prepare(op *Op) *Prepared {
 		}
 		switch op.Alias {
 		case 1: // key, message and signature are overlapping views of one array
-			arr := make([]byte, 0, len(t.key)+len(t.sig)+8)
-			arr = append(arr, t.sig...)
-			arr = append(arr, t.key...)
-			g.Raw(arr[:cap(arr)])
+			arr := g.Raw(len(t.key) + len(t.sig) + 8)
+			copy(arr, t.sig)
+			copy(arr[len(t.sig):], t.key)
 			p.sig = arr[:len(t.sig)]
 			p.pub = arr[len(t.sig) : len(t.sig)+len(t.key)]
-			p.msg = arr[:len(arr)] // message = sig||key: certainly not what was signed
+			p.msg = arr[:len(t.sig)+len(t.key)] // message = sig||key: certainly not what was signed
 		default:
 			p.pub, p.msg, p.sig = g.Buf(t.key), g.Buf(t.msg), g.Buf(t.sig)
 		}
@@ -481,6 +519,7 @@ type Outcome struct {
 	Fallbacks [][2]int `json:"fallbacks,omitempty"`
 	Pts       int64    `json:"pts,omitempty"`
 	Intact    bool     `json:"intact"`
+	Fault     bool     `json:"fault,omitempty"`
 
 	valid []bool
 	err   error
@@ -577,6 +616,16 @@ func execOp(p *Prepared) (out *Outcome) {
 				if out.Panic == "" {
 					out.Panic = "(empty panic value)"
 				}
+				if ae, ok := r.(interface{ Addr() uintptr }); ok {
+					// a memory fault at a non-nil address (debug.SetPanicOnFault)
+					if _, isRT := r.(runtime.Error); isRT && p.G.Contains(ae.Addr()) {
+						// ... inside the read-only pages the arguments live in
+						out.Panic = "fault: write to caller-supplied (read-only) memory"
+						out.Fault = true
+					} else {
+						out.Panic = "fault: invalid memory access outside the arguments"
+					}
+				}
 			}
 		}()
 		call(p, rd, out)
@@ -587,7 +636,7 @@ func execOp(p *Prepared) (out *Outcome) {
 		l := dev.log
 		out.Dev = &l
 	}
-	out.Intact = p.G.Intact()
+	out.Intact = p.G.Intact() && basepointIntact() && !out.Fault
 	out.B, out.B2 = "", ""
 	if out.b != nil || out.Panic == "" {
 		out.B = hexOrNil(out.b)
@@ -602,6 +651,22 @@ func execOp(p *Prepared) (out *Outcome) {
 		out.Err = out.err.Error()
 	}
 	return out
+}
+
+var basepointRef = [32]byte{9}
+
+// basepointIntact: the exported X25519 base-point slice is an input every
+// caller shares; the library must never write to it.
+func basepointIntact() bool {
+	if len(x25519.Basepoint) != 32 {
+		return false
+	}
+	for i, b := range x25519.Basepoint {
+		if b != basepointRef[i] {
+			return false
+		}
+	}
+	return true
 }
 
 func boolStr(b bool) string {
